@@ -960,8 +960,8 @@ func ruleSibling3(c *Ctx) {
 				return true
 			}
 			fo := c.objOf(ix.Index)
-			lit, ok := as.Rhs[0].(*ast.FuncLit)
-			if fo == nil || !ok {
+			lit, _, litBody := c.funcOf(as.Rhs[0]) // a literal or a named function
+			if fo == nil || lit == nil {
 				return true
 			}
 			arg := func(e ast.Expr) string {
@@ -982,14 +982,14 @@ func ruleSibling3(c *Ctx) {
 				return "?" + s
 			}
 			shape := "?"
-			if len(lit.Body.List) == 1 {
-				if es, ok := lit.Body.List[0].(*ast.ExprStmt); ok {
+			if len(litBody.List) == 1 {
+				if es, ok := litBody.List[0].(*ast.ExprStmt); ok {
 					if ce, ok := es.X.(*ast.CallExpr); ok && c.calleeName(ce) == "vm.bytecode.emitCond" && len(ce.Args) == 5 {
 						shape = "ite(" + arg(ce.Args[1]) + "," + arg(ce.Args[2]) + "," + arg(ce.Args[3]) + ")"
 					}
 				}
-			} else if len(lit.Body.List) == 2 {
-				s := c.sxN(lit, lit.Body.List)
+			} else if len(litBody.List) == 2 {
+				s := c.sxN(lit, litBody.List)
 				if s == "[(ExprStmt (CallExpr Fun:(SelectorExpr $p1 Sel:compile) Args:[$p0 (IndexExpr $p2 Index:0) $p3])) (ExprStmt (CallExpr Fun:(SelectorExpr $p1 Sel:emitOP) Args:[OP_LOGICAL_NOT]))]" {
 					shape = "not(a0)"
 				}
